@@ -16,8 +16,21 @@ def image(box, scale, shift):
     return [[shift + scale * lo, shift + scale * hi] for lo, hi in box]
 
 
+def models(chk, tier):
+    grid = [("bin", 2, 2, 8, 9, 3, 3, 5), ("rbin", 2, 1, 3, 7, 3, 2, -7), ("kary", 3, 1, 27, 10, 3, 4, 1), ("dbin", 2, 2, 4, 9, 2, 5, -2), ("rkary", 3, 1, 2, 7, 2, 3, 100)]
+    if tier != "quick":
+        grid += [("bin", 2, 2, 8, 13, 3, 7, -3), ("rbin", 2, 2, 3, 7, 3, 2, 9), ("rkary", 3, 2, 2, 7, 2, 6, 0), ("kary", 4, 1, 64, 13, 3, 2, 11)]
+    for (kind, K, D, W, mc, md, sc, sh) in grid:
+        label = "affine_%s_K%d_D%d" % (kind, K, D)
+        cfg = chk.write_cfg(label, {"Kind": kind, "KK": K, "DD": D, "W": W, "MaxCells": mc, "MaxDepth": md, "Scale": sc, "Shift": abs(sh), "Neg": sh < 0},
+                            invariants=["InvCutLawInvariant", "InvSameStructure", "InvImageBoxes", "InvOrderPreserved"])
+        chk.mc("MC_Affine.tla", cfg, label)
+    chk.exhaustive = True
+
+
 def run(tier):
     chk = F.Check("C16", tier)
+    models(chk, tier)
     rnd = random.Random(C.seed() + 29)
     jobs, plan = [], []
     k = 0
@@ -91,6 +104,6 @@ def run(tier):
     chk.notes["pairs_by_kind"] = {w: sum(1 for p in pairs if p["cfg"]["what"] == w) for w in ("scale2k", "translate-dyadic", "approx")}
     chk.assumptions = ["exact equality only where the map commutes with float arithmetic (power-of-two scalings; dyadic translations of midpoint / linspace partitions on dyadic boxes); other maps: relative position within 3 units of 2^-30 and identical cells / expansions", "rewards do not depend on the point, so both runs receive the same sequence", "DOO's default delta is compared under translations only (documented exception)"]
     return chk.finish(
-        rule="Each algorithm x partition is run on a box and on its affine image with the same seed and rewards; Trace_Pair compares the two sessions event by event (exact mode: equal rank codes, hence the image of every point is the point of the image run; approx mode: positions relative to the box within 3e-9).  Non-trivial = accepted pair with > 40 events.",
+        rule="MC: MC_Affine grows a lattice tree and its affine image in lock step for the five partition classes (every cell, split dimension and admissible cut): the image cut is admissible, structures coincide, boxes are images, order relations transfer.  TV: each algorithm x partition is run on a box and on its affine image with the same seed and rewards; Trace_Pair compares the two sessions event by event (exact mode: equal rank codes, hence the image of every point is the point of the image run; approx mode: positions relative to the box within 3e-9).  Non-trivial = accepted pair with > 40 events.",
         explanation="Rank coding is invariant under increasing affine maps, so two equivariant runs yield the same encoded trace; any decision that reads absolute coordinates shows up as a different cell, expansion or position.",
     )
